@@ -448,7 +448,7 @@ def case_repro(ctx, res, p):
                         signature=f"C17:repro-inprocess-{p['optimizer']}")
 
 
-def run_sub(spec):
+def run_sub(spec, hashseed=None):
     code = FIT_SNIPPET.format(repo=REPO)
     payload = json.dumps({"X": enc(spec["X"]), "Xq": enc(spec["Xq"]), "optimizer": spec["optimizer"],
                           "n_iter": spec["n_iter"], "jit": spec["jit"],
@@ -456,13 +456,15 @@ def run_sub(spec):
                           "n_landmarks": spec.get("n_landmarks")})
     env = dict(os.environ)
     env["JAX_PLATFORMS"] = "cpu"
+    if hashseed is not None:
+        env["PYTHONHASHSEED"] = str(hashseed)      # fresh interpreters differ in their str-hash salt: make that explicit
     return subprocess.Popen([sys.executable, "-c", code], stdin=subprocess.PIPE, stdout=subprocess.PIPE,
                             stderr=subprocess.PIPE, text=True, env=env), payload
 
 
 def case_subproc(ctx, res, p):
     """the same fit in two fresh interpreters (run concurrently) and in this process: bit-identical."""
-    procs = [run_sub(p) for _ in range(2)]
+    procs = [run_sub(p, hashseed=hs) for hs in (1, 2)]
     for pr, payload in procs:
         pr.stdin.write(payload)
         pr.stdin.close()
@@ -571,13 +573,14 @@ def run(ctx, res):
                         "landmarks": gen_landmarks(rng, X)})
     run_case(ctx, res, {"op": "subproc", "X": X, "Xq": Xq, "optimizer": "L-BFGS-B", "n_iter": 7, "jit": False,
                         "landmarks": gen_landmarks(rng, X)})
+    # the PRNG-driven optimiser across fresh interpreters (different hash salts), also in the quick tier
+    run_case(ctx, res, {"op": "subproc", "X": X, "Xq": Xq, "optimizer": "advi", "n_iter": 7, "jit": False})
     run_case(ctx, res, {"op": "jit", "X": gen_X(rng, SHAPES[1]), "optimizer": "L-BFGS-B", "n_iter": 7})
     # jit on/off for the iterative optimisers too (a traced closure may freeze per-iteration state such as the PRNG key)
     run_case(ctx, res, {"op": "jit", "X": gen_X(rng, SHAPES[1]), "optimizer": "advi", "n_iter": 7})
     run_case(ctx, res, {"op": "jit", "X": gen_X(rng, SHAPES[1]), "optimizer": "adam", "n_iter": 7})
     if not quick:
         run_case(ctx, res, {"op": "subproc", "X": X, "Xq": Xq, "optimizer": "adam", "n_iter": 7, "jit": False})
-        run_case(ctx, res, {"op": "subproc", "X": X, "Xq": Xq, "optimizer": "advi", "n_iter": 7, "jit": False})
         run_case(ctx, res, {"op": "subproc", "X": X, "Xq": Xq, "optimizer": "L-BFGS-B", "n_iter": 7, "jit": True,
                             "n_landmarks": 0})
         for opt in ("adam", "advi"):
